@@ -253,12 +253,62 @@ def ob_product_simulations(timeout=30):
                 functions=[dict(function=f.ref, sha256_16=f.sha)], transparent=sorted(x.transparent))
 
 
+def ob_parse(which, timeout=30):
+    """_parse_code_dict / _parse_error_model_dict / _parse_decoder_dict return a NEW object of the registered class built from exactly the given parameters"""
+    m = Module.load(BA)
+    f = m.funcs[{'code': '_parse_code_dict', 'noise': '_parse_error_model_dict', 'decoder': '_parse_decoder_dict'}[which]]
+    built = []
+
+    class Registry:
+        def acc_index(s_, x, st, key):
+            return ('ctor', key)
+    params = D({'p1': Opaque('v1'), 'p2': Opaque('v2')})
+    name = E.const('SomeName')
+
+    class CX(X):
+        def apply(s_, fv, args, kwargs, st, node=None):
+            if isinstance(fv, tuple) and fv and fv[0] == 'ctor':
+                o = Opaque('instance#%d' % len(built)); built.append((fv[1], args, kwargs, o)); return o
+            return X.apply(s_, fv, args, kwargs, st, node)
+    reg = Registry()
+    x = CX(m, {'name:CODES': lambda x_, st: reg, 'name:ERROR_MODELS': lambda x_, st: reg, 'name:DECODERS': lambda x_, st: reg})
+    d = D({'name': name, 'parameters': params})
+    if which == 'decoder':
+        code, em, rate = Opaque('code'), Opaque('em'), z3.Real('rate')
+        st, ret = x.run(f, [d, code, em, rate], {})
+    else:
+        st, ret = x.run(f, [d], {})
+    problems = []
+    if len(built) != 1:
+        problems.append('expected exactly one constructor call, found %d' % len(built))
+    else:
+        key, a, k, o = built[0]
+        if ret is not o:
+            problems.append('the returned object is not the one just constructed (e.g. a cached / shared instance)')
+        if not (isinstance(key, E) and key.is_const() and key.alts[0][1] == 'SomeName'):
+            problems.append('the class is not looked up under the given name')
+        want = dict(params.kv)
+        if which == 'decoder':
+            want.update(code=code, error_model=em, error_rate=rate)
+        if a or set(k) != set(want) or any(k[q] is not want[q] and not (isinstance(k[q], z3.ExprRef) and isinstance(want[q], z3.ExprRef) and k[q].eq(want[q])) for q in want):
+            problems.append('constructor is not called with exactly the given parameters: positional %s, keywords %s' % (len(a), sorted(k)))
+    # no module-level state is read or written (instances must not be shared between simulations)
+    for n in ast.walk(f.node):
+        if isinstance(n, (ast.Global, ast.Nonlocal)):
+            problems.append('uses global state')
+        if isinstance(n, ast.Name) and n.id in m.globals and n.id not in ('CODES', 'ERROR_MODELS', 'DECODERS') and isinstance(m.globals[n.id], (ast.Dict, ast.List, ast.Call)):
+            problems.append('reads/writes module-level container %s' % n.id)
+    return dict(verdict='refuted' if problems else 'discharged', model=dict(problems=sorted(set(problems))) if problems else None, backend='pyvc-symex', seconds=0, kind='plain',
+                detail='; '.join(sorted(set(problems))) or 'one fresh instance of the named class built from exactly the given parameters', functions=[dict(function=f.ref, sha256_16=f.sha)], transparent=[], parse=which)
+
+
 def obligations(tier):
     obs = [Ob('C13.registry[%s]' % w, ob_registry, dict(which=w), timeout=30, backend='pyvc-structural') for w in ('CODES', 'DECODERS', 'ERROR_MODELS')]
     obs += [Ob('C13.params.code[dim=%d]' % d_, ob_params_code, dict(dim=d_), timeout=60) for d_ in (2, 3)]
     obs.append(Ob('C13.params.noise', ob_params_noise, {}, timeout=60))
     for name in DECODERS:
         obs.append(Ob('C13.params.decoder[%s]' % name, ob_params_decoder, dict(name=name), timeout=30, backend='pyvc-structural'))
+    obs += [Ob('C13.parse[%s]' % w, ob_parse, dict(which=w), timeout=30) for w in ('code', 'noise', 'decoder')]
     obs += [Ob('C13.range.cases', ob_range_cases, {}, timeout=30), Ob('C13.product.expand', ob_product_expand, {}, timeout=30),
             Ob('C13.product.simulations', ob_product_simulations, {}, timeout=30)]
     return obs
@@ -343,9 +393,44 @@ def native_product(rnd):
     return None, None
 
 
+def native_exact_params(rnd):
+    """each simulation is built with exactly the requested parameters - also when two requested noise models are nearly identical"""
+    from panqec.simulation._batch_simulation import get_simulations
+    cases = [[{'r_x': 1 / 3, 'r_y': 1 / 3, 'r_z': 1 / 3, 'deformation_name': 'XZZX', 'deformation_kwargs': {'deformation_axis': a}} for a in ('x', 'y')],
+             [{'r_x': 0.00001 * j, 'r_y': 0.0, 'r_z': 1 - 0.00001 * j} for j in (1, 2, 3)],
+             [{'r_x': 0.2, 'r_y': 0.3, 'r_z': 0.5}, {'r_x': 0.2, 'r_y': 0.3, 'r_z': 0.5, 'deformation_name': 'XY'}]]
+    for nps in cases:
+        for form in ('ranges', 'runs'):
+            if form == 'ranges':
+                spec = {'ranges': {'label': 'x', 'code': {'name': 'Toric2DCode', 'parameters': [{'L_x': 2, 'L_y': 2}, {'L_x': 3, 'L_y': 2}]},
+                                   'error_model': {'name': 'PauliErrorModel', 'parameters': nps}, 'decoder': {'name': 'MatchingDecoder', 'parameters': {}}, 'error_rate': [0.1]}}
+            else:
+                spec = {'runs': [{'code': {'name': 'Toric2DCode', 'parameters': {'L_x': 2, 'L_y': 2}}, 'error_model': {'name': 'PauliErrorModel', 'parameters': dict(np_)},
+                                  'decoder': {'name': 'MatchingDecoder', 'parameters': {}}, 'error_rate': 0.1} for np_ in nps]}
+            with contextlib.redirect_stdout(io.StringIO()):
+                sims = get_simulations(json_copy(spec), verbose=False)
+            got = sorted((round(s_.error_model.params['r_x'], 9), str(s_.error_model.params['deformation_name']), str(sorted((s_.error_model.params['deformation_kwargs'] or {}).items()))) for s_ in sims)
+            mult = 2 if form == 'ranges' else 1
+            want = sorted((round(np_['r_x'], 9), str(np_.get('deformation_name')), str(sorted((np_.get('deformation_kwargs') or {}).items()))) for np_ in nps for _ in range(mult))
+            if got != want:
+                return 'requested noise models %s, simulations were built with %s (%s form)' % (want, got, form), spec
+            if len({id(s_.error_model) for s_ in sims}) != len(sims) and form == 'runs':
+                return 'two simulations share one error-model instance', spec
+    return None, None
+
+
+def json_copy(o):
+    import json
+    return json.loads(json.dumps(o))
+
+
 def replay(r):
     nm = r['name']
     rnd = random.Random(0)
+    if 'parse' in nm or 'product' in nm:
+        why, inp = native_exact_params(rnd)
+        if why:
+            return dict(confirmed=True, input=inp, detail=why)
     if 'registry' in nm:
         why, inp = native_registry()
     elif 'params' in nm:
@@ -373,6 +458,9 @@ def bounded(tier, seed):
         why, inp = native_roundtrip(rnd); ev += 1; nt.add(('rt', k))
         if why:
             viol.append(dict(obligation='C13.bounded.roundtrip', input=inp, detail=why)); break
+    why, inp = native_exact_params(rnd); ev += 1; nt.add(('exact',))
+    if why:
+        viol.append(dict(obligation='C13.bounded.exact_params', input=inp, detail=why))
     for k in range(25 if tier == 'quick' else 200):
         why, inp = native_product(rnd); ev += 1; nt.add(('prod', k))
         if k < 2:
